@@ -1,6 +1,10 @@
 package prove
 
-import "unsafe"
+import (
+	"unsafe"
+
+	"github.com/nelhage/taktician/tak"
+)
 
 // Read-only access for the /verif harness. Compiled in only through
 // `go build -overlay`; not part of the repository.
@@ -20,3 +24,24 @@ func VerifConsts() (infinity uint32, checkFreq, pn2thr int, eps float64) {
 // pulled away, so the solver's next table access panics in its own goroutine, where the harness recovers.
 // Only used on runs whose result is discarded.
 func (d *DFPNSolver) VerifAbort() { d.table.entries = nil }
+
+// VerifEntry is one occupied table slot: position hash and the bounds stored for it.
+type VerifEntry struct {
+	Hash       uint64
+	Phi, Delta uint32
+	Work       uint64
+}
+
+// VerifTable lists the occupied slots of the solver's table.
+func (d *DFPNSolver) VerifTable() []VerifEntry {
+	var out []VerifEntry
+	for _, e := range d.table.entries {
+		if e.hash != 0 || e.bounds.phi != 0 || e.bounds.delta != 0 {
+			out = append(out, VerifEntry{e.hash, e.bounds.phi, e.bounds.delta, e.work})
+		}
+	}
+	return out
+}
+
+// VerifAttacker is the attacker the solver settled on.
+func (d *DFPNSolver) VerifAttacker() tak.Color { return d.attacker }
